@@ -1,6 +1,7 @@
 package harness
 
 import (
+	"verif.local/simrt"
 	"fmt"
 	"math/big"
 
@@ -113,6 +114,7 @@ func (w *World) checkTransfer(amount, from, to spice.Melange, viaDrain bool) {
 // (2) seeded sequences over a bank of purses compared with a big-integer bank.
 func bankScenario(w *World, p *Plan, rec *Record) {
 	r := newPRNG(p.Seed ^ 0xBA4C)
+	simrt.Logf("case", "bank seed %d nodes %d", p.Seed, p.Cfg.Nodes)
 	pairs := c05Pairs()
 	if p.Cfg.Nodes == 0 { // slice of the exhaustive product chosen by the seed: amount index fixed per run
 		ai := int(p.Seed % uint64(len(pairs)))
